@@ -492,6 +492,7 @@ class FnSpec:
         self.head = ""
         self.loops = {}
         self.loopbodies = {}
+        self.ticks = None
         self.after = []
         self.props = None
         self.decreases = None
@@ -562,11 +563,13 @@ def parse_fn_directive(lines, defaults):
             fs.after.append((m2.group(1), int(m2.group(2) or 0), txt))
         elif cur == "props":
             fs.props = txt
+        elif cur == "ticks":
+            fs.ticks = txt.strip()
         cur, buf = None, []
 
     for ln in lines[1:]:
         s = ln.strip()
-        m = re.match(r'(requires|ensures|decreases|head|props|loopbody\s+\d+|loop\s+\d+|before\s+"[^"]*"(?:\s+\d+)?|after\s+"[^"]*"(?:\s+\d+)?)(?=\s|$)\s*(.*)$', s)
+        m = re.match(r'(requires|ensures|decreases|head|props|ticks|loopbody\s+\d+|loop\s+\d+|before\s+"[^"]*"(?:\s+\d+)?|after\s+"[^"]*"(?:\s+\d+)?)(?=\s|$)\s*(.*)$', s)
         if m and (cur is None or not ln.startswith("    ")):
             flush()
             cur = m.group(1)
@@ -651,6 +654,41 @@ def render_fn(idx, fs, table, ctx):
                 raise ExtractError("%s::%s has no loop #%d" % (fs.anchor, fs.name, k))
             inserts.setdefault(lp[k], []).append("\n" + txt + "\n")
             rules.fired.add("R9")
+    if fs.ticks:
+        # R14 (C17): a ghost iteration counter.  Every loop body starts by incrementing it, every `while` / `loop` without a
+        # decreases clause of its own gets `decreases (<bound>) - vticks`, and the bound is asserted at every exit (below)
+        lp = find_loops(body)
+        for k, pos in enumerate(lp):
+            inserts.setdefault(pos + 1, []).append("\nproof { vticks = vticks + 1; }\n")
+            kw = None
+            q = pos
+            while q >= 0:
+                if body[q].k == "id" and body[q].s in ("while", "for", "loop"):
+                    kw = body[q].s
+                    break
+                q -= 1
+            spec_txt = fs.loops.get(k, "")
+            auto_inv = None
+            if kw in ("while", "loop"):
+                auto_inv = "vticks <= (%s)" % fs.ticks
+                if "decreases" not in spec_txt:
+                    inserts.setdefault(pos, []).append("\ndecreases (%s) - vticks\n" % fs.ticks)
+            elif kw == "for":
+                # `for <ident> in <lo> .. <hi> {`: the counter advances in step with the loop variable
+                hdr = body[q + 1:pos]
+                ss = [t.s for t in hdr]
+                if len(ss) >= 5 and ss[1] == "in" and hdr[0].k == "id" and ".." in ss and "..=" not in ss and "." not in ss[2:]:
+                    d = ss.index("..")
+                    lo = " ".join(ss[2:d])
+                    inserts.setdefault(q, []).append("\nlet ghost __tick_base_%d = vticks;\n" % k)
+                    auto_inv = "vticks == __tick_base_%d + (%s as int - (%s) as int)" % (k, ss[0], lo)
+            if auto_inv:
+                if k in fs.loops:
+                    # the template's invariant text comes first (already inserted); extend it
+                    inserts[pos][0] = inserts[pos][0].rstrip().rstrip(",") + ", " + auto_inv + ",\n"
+                else:
+                    inserts.setdefault(pos, []).insert(0, "\ninvariant " + auto_inv + ",\n")
+        rules.fired.add("R14")
     if fs.loopbodies:
         lp = find_loops(body)
         for k, txt in fs.loopbodies.items():
@@ -709,6 +747,10 @@ def render_fn(idx, fs, table, ctx):
     head_txt = ""
     if fs.head.strip():
         head_txt = fs.head.strip() + "\n"
+    if fs.ticks:
+        chk = "proof { assert(vticks <= (%s)); }" % fs.ticks
+        body_txt = re.sub(r"(?<=[;{}])(\s*)return\b", r"\1" + chk.replace("\\", "\\\\") + " return", body_txt)
+        body_txt = "let ghost mut vticks: int = 0;\nlet __tick_r = {\n" + body_txt + "\n};\n" + chk + "\n__tick_r"
     if getattr(fs, "twin_wrap", False):
         # vacuity guard (DESIGN.md §3.8): the end of the real body must be reachable under requires + hints,
         # i.e. this assertion has to FAIL; contracts are left untouched so callers are not affected
